@@ -286,7 +286,8 @@ def fmt_label15(l):
     if l[0] == 2:
         return 'return hand %d' % l[1]
     if l[0] == 3:
-        return 'script hand %d broken=%d invalid=%d' % (l[1], l[2] & 1, (l[2] >> 1) & 1)
+        return 'script hand %d broken=%d invalid=%d%s' % (l[1], l[2] & 1, (l[2] >> 1) & 1,
+                                                         ' next-check-fails-once' if l[2] & 16 else '')
     return 'non-blocking get'
 
 
@@ -298,7 +299,7 @@ def bad_flags(cfg, flags):
     """does the scripted backend state make the manager's check fail?"""
     mgr, method = cfg[0], cfg[2]
     if mgr == 1:
-        return flags & 11 != 0      # 8: has_broken panics
+        return flags & 27 != 0      # 8: has_broken panics, 16: the next validity check (only) fails
     if mgr == 2:
         return (flags & 5 != 0) or (flags & 2 != 0 and method in (2, 3))   # 4: transaction manager in its error state
     return False
